@@ -98,7 +98,7 @@ MUTANTS["C12"] = [
     M("di_family_incomplete", PX, '"DST": ["RDI", "EDI", "DI", "DIL"],', '"DST": ["RDI", "EDI", "DI"],', "R1"),
     M("regex_no_byte_suffix", PX, 'ma = re.match(r"R([0-9]+)[DWB]?", reg_a_name)', 'ma = re.match(r"R([0-9]+)[DW]?$", reg_a_name)', "R1"),
     M("regex_single_digit", PX, 'mb = re.match(r"R([0-9]+)[DWB]?", reg_b_name)', 'mb = re.match(r"R([0-9])[DWB]?", reg_b_name)', "R1"),
-    M("vector_same_space_dropped", PX, "                if reg_a_name[1:] == reg_b_name[1:]:", "                if reg_a_name[2:] == reg_b_name[1:]:", "R4"),
+    M("vector_same_space_dropped", PX, "                if reg_a_name[1:] == reg_b_name[1:]:", "                if reg_a_name[2:] == reg_b_name[1:]:", "R1"),
     M("vector_class_missing", PX, '            "mm",\n            "xmm",\n            "ymm",\n            "zmm",\n        ]:', '            "mm",\n            "xmm",\n            "ymm",\n        ]:', "R1"),
     M("group_test_one_sided", PX, "                        if reg_b_name in dep_group:\n                            return True", "                        if reg_b_name:\n                            return True", "R4"),
     M("no_upper", PX, "        reg_b_name = reg_b.name.upper()", "        reg_b_name = reg_b.name", "R3"),
